@@ -1031,4 +1031,44 @@ theorem attemptStep_conn (P : SProto Q) (hP : Laws P.toProto) (cls : Bytes → E
        · refine ⟨?_, (by intro s2 es2 l h; cases h), (by intro s2 es2 h; cases h)⟩
          intro d s2 es2 h; cases h; exact ⟨⟨hi.1, hi.2⟩, hdd⟩)
 
+theorem attemptStep_next_noreply (P : SProto Q) (cls : Bytes → Ev) (lim : Limits) (req : Bytes) (tmo : Option Nat) (retry : Bool)
+    (i : Nat) (s : Sys Q) (es : List SEv) (last l : Out) (s1 : Sys Q) (es1 : List SEv) (hl : ∀ d, last ≠ .reply d)
+    (h : attemptStep P cls lim req tmo retry i s es last = .next s1 es1 l) : ∀ d, l ≠ .reply d := by
+  unfold attemptStep at h
+  repeat' split at h
+  all_goals first
+    | (cases h; first | exact hl | simp)
+    | (have := afterLoss_next _ _ _ _ _ _ _ _ _ h; rw [this]; simp)
+    | cases h
+
+/-- whatever a call returns was read, as a completely received message, on the connection on which the last write of
+    the request went out (the write of the attempt that returned it) -/
+theorem attempts_origin (P : SProto Q) (hP : Laws P.toProto) (cls : Bytes → Ev) (lim : Limits) (req : Bytes) (t : Nat)
+    (k i : Nat) (s : Sys Q) (es : List SEv) (last : Out) (hl : ∀ d, last ≠ .reply d) (d : Bytes)
+    (h : (attempts P cls lim req (some t) k i s es last).1 = .reply d) :
+    ∃ j tw w0, FromConn P j d ∧ (attempts P cls lim req (some t) k i s es last).2.1.wire = w0 ++ [(j, tw, req)] := by
+  induction k generalizing i s es last with
+  | zero =>
+    have hs := attemptStep_spec P cls lim req t false i s es last true (by simp)
+    have hc := attemptStep_conn P hP cls lim req (some t) false i s es last
+    have hn := attemptStep_next_noreply P cls lim req (some t) false i s es last
+    unfold attempts at h ⊢
+    generalize attemptStep P cls lim req (some t) false i s es last = st at hs hc hn h
+    cases st with
+    | fin o s1 es1 =>
+      simp only at h; subst h
+      exact ⟨_, _, _, (hc.1 _ _ _ rfl).2, hs.2.1⟩
+    | next s1 es1 l => simp only at h; exact absurd h (hn l s1 es1 hl rfl d)
+  | succ k ih =>
+    have hs := attemptStep_spec P cls lim req t true i s es last true (by simp)
+    have hc := attemptStep_conn P hP cls lim req (some t) true i s es last
+    have hn := attemptStep_next_noreply P cls lim req (some t) true i s es last
+    unfold attempts at h ⊢
+    generalize attemptStep P cls lim req (some t) true i s es last = st at hs hc hn h
+    cases st with
+    | fin o s1 es1 =>
+      simp only at h; subst h
+      exact ⟨_, _, _, (hc.1 _ _ _ rfl).2, hs.2.1⟩
+    | next s1 es1 l => exact ih (i + 1) s1 es1 l (hn l s1 es1 hl rfl) h
+
 end Gallia.LossSys
